@@ -222,6 +222,9 @@ def replay_case(path, profiles=('dev', 'release')):
             txt = p.stdout
             if 'ND-ASSUME-FAILED' in txt or 'ND-REPLAY' in txt:
                 out[prof] = (False, 'replay did not satisfy the harness assumptions: ' + txt[-400:])
+            elif 'has overflowed its stack' in txt or re.search(r"process didn't exit successfully.*\(signal", txt):
+                m = re.search(r'(thread .* has overflowed its stack|signal: \d+[^)]*)', txt)
+                out[prof] = (True, 'the test process crashed: ' + (m.group(1) if m else 'abnormal exit'))
             elif re.search(r'test replay \.\.\. FAILED', txt) or 'panicked at' in txt:
                 m = re.search(r'panicked at[^\n]*\n[^\n]*', txt)
                 out[prof] = (True, m.group(0) if m else 'test failed')
